@@ -82,8 +82,10 @@ fn step_write<C: CellType>(mk: fn(u8) -> C) {
 
 fn step_make_accessible<C: CellType>(mk: fn(u8) -> C) {
     let (mut mem, model) = pre_state(mk);
-    let a = any_in(-2, 1);
-    let b = any_in(-1, 2);
+    // asymmetric two-sided requests included: the placement of the old block when room is
+    // needed below and above at once depends on which side needs more
+    let a = any_in(-4, 1);
+    let b = any_in(-1, 6);
     kani::assume(a < b);
     let below = !mem.check(a);
     let above = !mem.check(b - 1);
